@@ -429,3 +429,63 @@ def run_sessions(cases, ipool=None, mpool=None):
             ipool.close()
         if own_m:
             mpool.close()
+
+
+# ---------------------------------------------------------------- protocol helpers (harness side)
+def hx(s):
+    return s.encode('utf-8').hex()
+
+
+def ser_py(v):
+    """plain Python value -> protocol tokens (expected values computed by oracles)"""
+    import struct
+    if v is None:
+        return 'N'
+    if isinstance(v, bool):
+        return 'B1' if v else 'B0'
+    if isinstance(v, int):
+        return 'I%d' % v
+    if isinstance(v, float):
+        return 'F%016x' % struct.unpack('>Q', struct.pack('>d', v))[0]
+    if isinstance(v, str):
+        return 'S' + hx(v)
+    if isinstance(v, (list, tuple)):
+        return '[ ' + ''.join(ser_py(x) + ' ' for x in v) + ']'
+    if isinstance(v, dict):
+        return 'A ( ' + ''.join('S' + hx(str(k)) + ' ' + ser_py(x) + ' ' for k, x in v.items()) + ')'
+    raise TypeError(type(v))
+
+
+def wal_string(s):
+    """a WAL string literal for text s (reader side uses Python literal_eval)"""
+    out = '"'
+    for ch in s:
+        if ch == '\\':
+            out += '\\\\'
+        elif ch == '"':
+            out += '\\"'
+        elif ch == '\n':
+            out += '\\n'
+        elif ch == '\t':
+            out += '\\t'
+        elif ch == '\r':
+            out += '\\r'
+        else:
+            out += ch
+    return out + '"'
+
+
+def std_checks(rep, results, oracle=None):
+    """shared loop: correspondence for every session + optional oracle(case, impl) -> None|str"""
+    for case, impl, mout, cmp in results:
+        rep.evaluations += 1
+        if cmp is None:
+            pass
+        elif cmp.startswith('skip:'):
+            rep.skip(cmp[5:])
+        else:
+            rep.mismatches.append({'case': case, 'impl': impl, 'model': mout, 'diff': cmp})
+        if oracle is not None and not impl.get('crash'):
+            o = oracle(case, impl)
+            if o:
+                rep.oracle_failures.append({'case': case, 'impl': impl, 'why': o})
